@@ -23,7 +23,8 @@ from ..cfg import CFG, branch_facts, guarded_by
 from ..core import (AnalysisError, call_name, const_str, dotted, find_calls,
                     is_self_attr, kwarg, last_attr, names_in, short, txt,
                     walk)
-from ..normalize import expand_locals, inline_helpers
+from ..normalize import (expand_locals, expand_ref_locals,
+                         inline_helpers)
 
 ASSUMPTIONS = [
     "NOT decided: numerical equality of a computed feature with a fresh "
@@ -282,8 +283,11 @@ def r61(ctx, repo, instances):
                              f"{'their data' if covered_dyn_data else 'no data'}"
                              f" and {'the implementing recipes' if covered_dyn_recipes else 'no recipe hashes'}")
             else:
-                declared = False
-                what = f"{pres}config [{sec}] key computed at run time"
+                # the key could not be folded: the analyser cannot tell which
+                # setting is read – not a verdict on the code
+                raise AnalysisError(
+                    f"{inst.label}: reads config [{sec}] under a key that "
+                    f"cannot be folded (line {getattr(g['node'], 'lineno', '?')})")
             mode = ("value-affecting" if g["affects"]
                     else "decides between value and exception")
             if declared:
@@ -310,7 +314,8 @@ def r61(ctx, repo, instances):
 # R6.2
 
 def r62(ctx, repo):
-    func = repo.func(CORE, "RTDCBase._get_ancillary_feature_data")
+    func = expand_ref_locals(
+        repo.func(CORE, "RTDCBase._get_ancillary_feature_data"))
     cfg = CFG(func)
     # names bound to `.hash(self)` results / available_features
     hash_names = set()
@@ -790,11 +795,37 @@ def r66(ctx, repo):
                node=call, label=f"plugin pass-through {kwname}")
     rel = "dclab/rtdc_dataset/feat_temp.py"
     stf = repo.func(rel, "set_temporary_feature")
-    # hierarchy branch ends in rejuvenate(); data stored read-only
+    # on the hierarchy branch every normal path to the exit passes
+    # rejuvenate() after the value was handed to the root
+    scfg = CFG(stf)
+
+    def hier_edge(src, lab, dst):
+        if src.kind == "test" and lab in ("T", "F"):
+            for e, t in branch_facts(src.ast.test, lab == "T"):
+                if t and isinstance(e, ast.Call) and call_name(e) == \
+                        "isinstance" and "RTDC_Hierarchy" in txt(e):
+                    return True
+        return False
+
+    def is_rejuv(n_):
+        return n_.kind == "stmt" and n_.ast is not None and any(
+            isinstance(c, ast.Call) and last_attr(c) == "rejuvenate"
+            for c in ast.walk(n_.ast))
+    starts = [b for n_ in scfg.nodes for (b, lab) in scfg.succ[n_.id]
+              if hier_edge(n_, lab, scfg.nodes[b])]
+    if not starts:
+        raise AnalysisError("set_temporary_feature: hierarchy branch lost")
+    ok = True
+    for b in starts:
+        if is_rejuv(scfg.nodes[b]):
+            continue
+        r = scfg.reach([b], avoid_node=is_rejuv,
+                       avoid_edge=lambda s_, l_, d_: l_ == "x",
+                       include_sources=True)
+        if scfg.exit in r:
+            ok = False
     hier = [n for n in walk(stf) if isinstance(n, ast.If)
             and "RTDC_Hierarchy" in txt(n.test)]
-    ok = bool(hier) and isinstance(hier[0].body[-1], ast.Expr) and last_attr(
-        hier[0].body[-1].value) == "rejuvenate"
     ctx.ob("R6.6", ok, "setting a temporary feature on a hierarchy child "
            "ends in rejuvenate()" if ok else
            "hierarchy child is not refreshed after a temporary feature was "
